@@ -28,7 +28,7 @@ use arrow::{array::ArrayRef, datatypes::DataType, datatypes::Field};
 use datafusion_common::ScalarValue;
 use datafusion_common::{Result, internal_err, not_impl_err};
 use datafusion_expr::function::{AccumulatorArgs, StateFieldsArgs};
-use datafusion_expr::utils::format_state_name;
+use datafusion_expr::utils::{AggregateOrderSensitivity, format_state_name};
 use datafusion_expr::{
     Accumulator, AggregateUDFImpl, Documentation, GroupsAccumulator, Signature,
     Volatility,
@@ -84,6 +84,12 @@ impl Stddev {
 }
 
 impl AggregateUDFImpl for Stddev {
+    fn order_sensitivity(&self) -> AggregateOrderSensitivity {
+        // The result does not depend on the input order: never request the ORDER BY
+        // columns as extra arguments or a sort
+        AggregateOrderSensitivity::Insensitive
+    }
+
     fn name(&self) -> &str {
         "stddev"
     }
@@ -186,6 +192,12 @@ impl StddevPop {
 }
 
 impl AggregateUDFImpl for StddevPop {
+    fn order_sensitivity(&self) -> AggregateOrderSensitivity {
+        // The result does not depend on the input order: never request the ORDER BY
+        // columns as extra arguments or a sort
+        AggregateOrderSensitivity::Insensitive
+    }
+
     fn name(&self) -> &str {
         "stddev_pop"
     }
